@@ -742,5 +742,8 @@ def run(ctx):
     from ..rules import slicenorm, sC16
     # pending finding (FINDING_1 of strengthening session G3): sC16.rule_pyx_too_many (C16-PYXMANY) reports the unmodified tree - an index with more entries than
     # dimensions is not rejected by _unellipsify (silent extra dimensions, out-of-bounds writes beyond 8 slices); register it once the repair is in.
+    # pending finding (FINDING_1 of strengthening session H2, round 5): sC16.rule_merge_newaxis (C16-MERGE-NEW) reports the unmodified tree - MemoryViewSliceNode.merged_indices
+    # pairs a second-level None / Ellipsis with one full slice of the first level: m[:, 1:][None] is compiled as m[None, 1:, :], m[...][..., i] (3-dim) as m[..., i, :].
+    # Register it next to sC16.rule_merge once the repair is in.
     return [rule_sig(ctx, M), rule_extern(ctx, M), rule_tpl(ctx, M), rule_ctx(ctx, M), rule_calls(ctx, M), rule_def(ctx, M), rule_index(ctx, M), slicenorm.rule_slice(ctx),
-            sC16.rule_pyx_too_many(ctx), sC16.rule_ellipsis(ctx), sC16.rule_amount(ctx, M), sC16.rule_step(ctx), sC16.rule_store(ctx, M), sC16.rule_gen(ctx), sC16.rule_pyx_ellipsis(ctx), sC16.rule_pyx_slice(ctx), sC16.rule_pyx_index(ctx), sC16.rule_suboffset_axis(ctx, M), sC16.rule_pyx_use(ctx), sC16.rule_fields(ctx)]
+            sC16.rule_pyx_too_many(ctx), sC16.rule_ellipsis(ctx), sC16.rule_amount(ctx, M), sC16.rule_step(ctx), sC16.rule_store(ctx, M), sC16.rule_gen(ctx), sC16.rule_pyx_ellipsis(ctx), sC16.rule_pyx_slice(ctx), sC16.rule_pyx_index(ctx), sC16.rule_suboffset_axis(ctx, M), sC16.rule_pyx_use(ctx), sC16.rule_fields(ctx), sC16.rule_pack(ctx), sC16.rule_merge(ctx)]
